@@ -13,6 +13,7 @@ Results are projected to lists of integers:
 which is exactly the encoding of coq/extract/ExtractIso.v.
 """
 import hashlib
+import re
 import io
 import itertools
 import json
@@ -70,8 +71,10 @@ def _parser(sep):
 def impl_call(case):
     entry, sep, kind, codes, zutc = case
     import datetime as D
+    # building the input object is the harness's job: an exception here must never be booked as the
+    # implementation's ValueError
+    x = make_input(kind, codes)
     try:
-        x = make_input(kind, codes)
         if entry == 0:
             if sep is None:
                 from dateutil import parser as P
@@ -105,6 +108,69 @@ def impl_call(case):
 # ----------------------------------------------------------------------------- oracle requests
 
 
+# the SPEC side of every comparison is the grammar of the property TEXT (coq/iso/IsoText.v: iso_text / time_text,
+# oracle entries 30 / 32); it differs from the implementation's language iso_denotes (entries 10 / 12, proved equal
+# to the model) exactly on the two open findings below
+SPEC_ISOPARSE, SPEC_ISOTIME = 30, 32
+
+_SUBUS = re.compile(r"(?:24:00:00|240000)[.,]0{6}[0-9]*[1-9][0-9]*(?:[Zz]|[+-][0-9]{2}(?::?[0-9]{2})?)?\Z")
+
+
+def m_2400_subus(payload):
+    """F-C20-2400-subus: 24:00:00 + a fraction that is non-zero only beyond the sixth digit, accepted as 00:00
+    (of the next day).  Narrow: the text must end in exactly that time (+ optional offset), the implementation
+    must have returned an all-zero time, the text grammar must reject."""
+    inp = payload.get("input") or {}
+    if inp.get("entry") not in ("isoparse", "parse_isotime") or payload.get("spec") != REJECT:
+        return False
+    text = "".join(map(chr, inp.get("codes", [])))
+    m = _SUBUS.search(text)
+    if not m:
+        return False
+    ri = payload.get("impl") or []
+    if inp["entry"] == "isoparse":
+        # complete date + one separator byte in front of the time
+        if m.start() < 8 or ri[:1] != [1] or ri[4:8] != [0, 0, 0, 0]:
+            return False
+    else:
+        if m.start() != 0 or ri[:5] != [1, 0, 0, 0, 0]:
+            return False
+    return True
+
+
+def m_ordinal_digit_sep(payload):
+    """F-C07-ordinal-digit-sep: YYYYDDD + digit separator + time, no configured separator, rejected with
+    ValueError while the text grammar reads it."""
+    inp = payload.get("input") or {}
+    if inp.get("entry") != "isoparse" or inp.get("sep") is not None or payload.get("impl") != REJECT:
+        return False
+    codes = inp.get("codes", [])
+    if len(codes) < 10 or not all(48 <= c <= 57 for c in codes[:8]):
+        return False
+    exp = payload.get("spec_expected") or payload.get("spec") or []
+    if exp[:1] != [1]:
+        return False
+    # the value the text grammar reads is the ordinal date YYYY-DDD
+    import datetime as D
+    y, n = int("".join(map(chr, codes[:4]))), int("".join(map(chr, codes[4:7])))
+    try:
+        d = D.date(y, 1, 1) + D.timedelta(days=n - 1)
+    except (ValueError, OverflowError):
+        return False
+    if n < 1 or d.year != y:
+        return False
+    h24 = codes[8:10] == [50, 52]
+    if h24:
+        try:
+            d = d + D.timedelta(days=1)
+        except OverflowError:
+            return False
+    return exp[1:4] == [d.year, d.month, d.day]
+
+
+MATCHERS = {"m_2400_subus": m_2400_subus, "m_ordinal_digit_sep": m_ordinal_digit_sep}
+
+
 def sep_valid(sep):
     return sep is None or (len(sep) == 1 and ord(sep) < 128 and sep not in "0123456789")
 
@@ -125,12 +191,14 @@ def spec_req(case):
     entry, sep, _kind, codes, zutc = case
     if entry == 0:
         if sep is None:
-            return (10, [-1] + list(codes))
+            return (SPEC_ISOPARSE, [-1] + list(codes))
         if not sep_valid(sep):
             return None
-        return (10, [1, ord(sep)] + list(codes))
+        return (SPEC_ISOPARSE, [1, ord(sep)] + list(codes))
     if entry == 3:
         return (13, [1 if zutc else 0] + list(codes))
+    if entry == 2:
+        return (SPEC_ISOTIME, list(codes))
     return (10 + entry, list(codes))
 
 
@@ -425,7 +493,8 @@ def model_tie(build_err, props):
         "translator_message": (props.get("poison", "")[-600:] or (build_err.log[-400:] if build_err is not None else "")),
         "gen_obligations": gen,
         "gen_obligations_discharged": [t for t in gen if t in props["theorems"][:props["discharged"]]],
-        "hand_modelled_and_pinned_by_ast_hash": ["_takes_ascii", "isoparser.__init__", "module tail"],
+        "hand_modelled_and_pinned_by_ast_hash": ["isoparser.__init__", "module tail (DEFAULT_ISOPARSER, isoparse, __all__)",
+                                                 "import block", "arguments of raise ValueError(...)"],
     }
 
 
